@@ -28,7 +28,8 @@ Openers == << [o |-> "[", c |-> "]"], [o |-> "[[", c |-> "]]"], [o |-> "![", c |
               [o |-> "(", c |-> ")"], [o |-> "*", c |-> "*"], [o |-> "**", c |-> "**"], [o |-> "_", c |-> "_"], [o |-> "\"", c |-> "\""], [o |-> "'", c |-> "'"],
               [o |-> "> ", c |-> ""], [o |-> "* ", c |-> ""], [o |-> "  ", c |-> ""], [o |-> "{++", c |-> "++}"], [o |-> "{--", c |-> "--}"], [o |-> "{==", c |-> "==}"],
               [o |-> "{>>", c |-> "<<}"], [o |-> "{~~", c |-> "~~}"], [o |-> "$", c |-> "$"], [o |-> "$$", c |-> "$$"], [o |-> "\\\\(", c |-> "\\\\)"], [o |-> "\\\\[", c |-> "\\\\]"],
-              [o |-> "{", c |-> "}"], [o |-> "<!--", c |-> "-->"], [o |-> "`", c |-> "`"], [o |-> "<", c |-> ">"], [o |-> "x^", c |-> "^"], [o |-> "x~", c |-> "~"], [o |-> "*_", c |-> "_*"] >>
+              [o |-> "{", c |-> "}"], [o |-> "<!--", c |-> "-->"], [o |-> "`", c |-> "`"], [o |-> "<", c |-> ">"], [o |-> "x^", c |-> "^"], [o |-> "x~", c |-> "~"], [o |-> "*_", c |-> "_*"],
+              [o |-> "\"a 'a ", c |-> " a' a\""] >>       \* (double and single quotes nested in turn, each next to a word as quotation marks are)
 Shapes == {"open", "balanced", "close", "interleaved"}
 GInit == g \in {[op |-> i, shape |-> s] : i \in 1 .. Len(Openers), s \in Shapes} /\ n = 0 /\ l = 0 /\ base = 0
 GNext == FALSE /\ UNCHANGED <<n, g, l, base>>
@@ -45,6 +46,7 @@ TNext == /\ l <= Len(Tr) /\ l' = l + 1 /\ UNCHANGED <<n, g>>
          /\ LET r == Tr[l] IN
             CASE r.e = "reset" -> UNCHANGED base
               [] r.e = "nest"  -> /\ ~r.null /\ r.stackkib <= StackBoundKiB                                  \* deep nesting degrades, never exhausts the stack
+                                  /\ r.deep = <<>>                              \* no function has more frames active at once than a depth guard (Limit, with slack: 1500) admits
                                   /\ (IF r.depth = BaseDepth THEN base' = base @@ (r.key :> r.stackkib)
                                       ELSE /\ (r.key \in DOMAIN base => r.stackkib <= base[r.key] + GrowthKiB)         \* bounded: independent of how deep the input nests
                                            /\ UNCHANGED base)
